@@ -1,5 +1,7 @@
 HOOK_COMMITS = ["d8a0f57"]
-FIX_COMMITS = ["10a3687", "edbed29", "6730abc", "202cc98", "aa67b39", "628eb0d", "fc50b63"]
+FIX_COMMITS = ["10a3687", "edbed29", "6730abc", "202cc98", "aa67b39", "628eb0d", "fc50b63", "67f5fe3", "2135ff7"]
+SPEC_NOTE = ("Trusted: Lean kernel (axioms propext, Classical.choice, Quot.sound only); the hand-written parser model (constants regenerated from the source), tied to spec_util.rs by the K-spec correspondence "
+             "on generated YAML text; serde_yaml's text parser is outside the model.")
 OPS_NOTE = ("Trusted: Lean kernel (axioms propext, Classical.choice, Quot.sound only); the acceptors are hand-written specifications of the operators' possible results, and the real operators are checked to "
             "stay inside them (K-ops: sequences of crossover+mutation on one PathContext, all parameter corners, all 10 node kinds incl. maps in maps/variants/optionals); rand/rand_distr are not modelled.")
 CODEC_NOTE = ("Trusted: Lean kernel (axioms propext, Classical.choice, Quot.sound only); the hand-written spec/value/JSON model, tied to value.rs and value_util.rs by the "
@@ -13,6 +15,21 @@ CTL_NOTE = ("Trusted: Lean kernel (axioms propext, Classical.choice, Quot.sound 
             "by the K-ctl correspondence (real async_launch::launch driven by scripted completion orders, outcomes, bursts, Terminate positions, "
             "abort-honouring/ignoring evaluations); tokio/futures scheduling itself is not modelled - an event is 'the select! loop takes this result'.")
 TEXT = {
+    "C01": {
+        "text": "Theorems C01_init / C01_guess / C01_cross / C01_mut (closure of the initial value, the guess reader and both operators' acceptors under conformance, for every spec, value, nesting and probability class) and "
+                "C01_run / C01_report (controller + core model with V := VNode: every start action and the reported best-seen carry a conforming value, for every event list, sample size and concurrency, given that each offspring "
+                "is one the operators can produce). The real operators are checked to stay inside the acceptors in direct operation sequences (K-ops) and on every in-run call of the real AlgoContext (K-algo, hook H3); "
+                "conf is evaluated on every real output.",
+        "design_ref": "7 (C01), 3.3, 4 (L4, L5), 9 (D4, D8, D9)", "note": OPS_NOTE,
+        "technique": "Lean 4 mutual structural induction (operator closure) + invariant over all event sequences + differential correspondence of operators and in-run calls",
+    },
+    "C10": {
+        "text": "Theorems over the parser model for every YAML tree: C10_total (total function), C10_wf (accepted implies well-formed: all rules of the property), C10_init_conf, C10_roundtrip (every well-formed space with writable names "
+                "has a document read back as exactly it), C10_prefixes_agree (both passes of the sub parser use the same typeDef prefix - an obligation on the extracted constants), scope lemmas, C10_unknown_type. The real parser is "
+                "compared with the model on generated YAML text and its result with the generator's intended parameter space.",
+        "design_ref": "7 (C10), 4 (L3), 5.2, 9 (D5, D6)", "note": SPEC_NOTE,
+        "technique": "Lean 4 mutual structural induction over the YAML tree (soundness w.r.t. wf, canonical round trip) + source-extracted constants + differential correspondence",
+    },
     "C12": {
         "text": "Theorems C12_prov / C12_single / C12_same over the crossover acceptor, for every well-formed spec, every ordered list of conforming parents and every probability class: each accepted offspring satisfies the "
                 "provenance relation prov (defined without reference to probabilities: every leaf, option, presence and map key comes from a parent at the same position, sub-structures are combined only among parents sharing it); "
